@@ -12,8 +12,10 @@ import importlib
 import json
 import multiprocessing
 import os
+import signal
 import subprocess
 import sys
+import threading
 import time
 import traceback
 from concurrent.futures import ProcessPoolExecutor
@@ -43,9 +45,13 @@ def execute(mod, seed, replay=None):
     """Run once.  Returns a result dict (never raises)."""
     dec = Decisions(seed=seed, replay=replay)
     res = {"violation": None, "harness_error": None, "stats": {}, "sample": None}
+    armed = _arm_wall_watchdog()
     try:
         out = mod.run_one(seed, dec)
         res.update(out)
+    except WallTimeout:
+        res["harness_error"] = "wall-clock watchdog: the run did not finish in %ds\n%s" % (
+            RUN_WALL_S, traceback.format_exc()[-3000:])
     except Violation as v:
         kind, attrs = v.sig, {}
         if isinstance(kind, tuple):
@@ -56,9 +62,35 @@ def execute(mod, seed, replay=None):
         res["harness_error"] = traceback.format_exc()
     except BaseException:  # noqa
         res["harness_error"] = traceback.format_exc()
+    finally:
+        if armed:
+            signal.setitimer(signal.ITIMER_REAL, 0)
     res["decisions"] = dec.recorded()
     res["lengths"] = dec.lengths()
     return res
+
+
+RUN_WALL_S = int(os.environ.get("VERIF_RUN_WALL_S", "60"))
+
+
+class WallTimeout(BaseException):
+    pass
+
+
+def _on_alarm(signum, frame):
+    from . import sched as _s
+    s = _s._CURRENT
+    if s is not None and s.abort is None:
+        s.abort = "wall budget"
+    raise WallTimeout()
+
+
+def _arm_wall_watchdog():
+    if threading.current_thread() is not threading.main_thread():
+        return False
+    signal.signal(signal.SIGALRM, _on_alarm)
+    signal.setitimer(signal.ITIMER_REAL, RUN_WALL_S)
+    return True
 
 
 def _digest(res):
